@@ -307,7 +307,9 @@ def _against(c, o, m):
         return ["constructor: impl=%s%s model=%s" % (o["open"], "/" + o.get("open_err", "") if o["open"] == "error" else "",
                                                     m["open"])]
     if m["open"] == "error":
-        return ["after the failed constructor: " + d for d in _match_handles(o["after_open"], {"handles": m["handles"]}, spy)]
+        if m.get("parse_err") and o.get("open_err") != m["parse_err"] and c["source"] not in ("bytes", "pathlike"):
+            bad.append("constructor raised %s, the Lean RIFF reader says %s" % (o.get("open_err"), m["parse_err"]))
+        return bad + ["after the failed constructor: " + d for d in _match_handles(o["after_open"], {"handles": m["handles"]}, spy)]
     bad += ["after the constructor: " + d for d in _match_handles(o["after_open"], m, spy)]
     if o["hdr"] != [m["hdr"]["rate"], m["hdr"]["channels"], m["hdr"]["bits"]]:
         bad.append("rate/channels/bits: impl=%s model=%s" % (o["hdr"], m["hdr"]))
